@@ -280,7 +280,8 @@ fn main() {
             let depth: usize = a.get("depth").map(|s| s.parse().unwrap()).unwrap_or(4);
             let max_len: usize = a.get("max-len").map(|s| s.parse().unwrap()).unwrap_or(4);
             let mode = if a.get("mode").map(|s| s == "faults").unwrap_or(false) { coll::vecmodel::VMode::Faults } else { coll::vecmodel::VMode::Diff };
-            let model = coll::vecmodel::VecModel { mode, thorough, max_len, max_depth: depth };
+            let container: u8 = a.get("container").map(|s| if s == "api2" { 1 } else { 0 }).unwrap_or(0);
+            let model = coll::vecmodel::VecModel { container, mode, thorough, max_len, max_depth: depth };
             run_generic(&model, replay, &a, threads, slab_bytes, depth, serde_json::json!({"engine": "vec", "mode": format!("{:?}", mode), "max_len": max_len, "max_depth": depth, "thorough": thorough}));
         }
         "str" | "replay-str" => {
